@@ -389,6 +389,10 @@ func c03CheckData(env *fw.Env, what string, msg *hsms.DataMessage, model e37.Fra
 		env.Violate("panic-tobytes", fmt.Sprintf("%s: ToBytes panicked: %v", what, p), cs)
 		return false
 	}
+	// the slice the FIRST serialisation returned belongs to the caller: it is kept aside and written over below,
+	// before the message is serialised again (a message that cached it would then re-serialise to something else)
+	first := got
+	got = append([]byte(nil), first...)
 	want := model.Encode()
 	if !bytes.Equal(got, want) {
 		// the only tolerated difference: F4 NaN payload bits inside the body
@@ -414,8 +418,11 @@ func c03CheckData(env *fw.Env, what string, msg *hsms.DataMessage, model e37.Fra
 	if ab := msg.AppendBodyTo(pre); !bytes.Equal(ab[:2], []byte{0xEE, 0xDD}) || !bytes.Equal(ab[2:], model.Body) {
 		env.Violate("appendbodyto", fmt.Sprintf("%s: AppendBodyTo(eedd)=%s want eedd||%s", what, hexClip(ab), hexClip(model.Body)), cs)
 	}
+	for k := range first {
+		first[k] ^= 0x5A
+	}
 	if again := msg.ToBytes(); !bytes.Equal(again, got) {
-		env.Violate("nondeterministic-tobytes", what+": two ToBytes() calls differ", cs)
+		env.Violate("nondeterministic-tobytes", fmt.Sprintf("%s: a second ToBytes() differs from the first one (whose result the caller had written over in between)\n 1st %s\n 2nd %s", what, hexClip(got), hexClip(again)), cs)
 	}
 	if !deep {
 		return true
